@@ -653,7 +653,7 @@ func runC04(e *Engine, r *Report, tier string) {
 		"R1 path ledger: on every success path of a routine that calls the bank keeper with a module account, each coin that is minted is paid out and each coin that is burned was collected on that path (module escrow unchanged when supply changes), all operations use one module account and one holder, and every amount is the amount of the routine's coin parameter; a success path without any operation is accepted only when the coin is FX, is not the representation the routine converts, or the test is on the coin's own amount. " +
 		"R2/R3 inverse agreement: every routine that releases value from a module account (mint or module->account) has, in the same package, a routine that undoes it for every token kind (FX, module-owned pair, externally-owned pair) and conversion direction: branch conditions are interpreted over that finite configuration space and the supply and holder effects of each pair of paths must cancel; a releasing routine with no inverse is a second, unproved implementation of deposit/refund. " +
 		"R4 holder agreement: coins credited to an account by a crediting routine are later debited only from that account (or after an explicit transfer to the debited account). " +
-		"R5 escrowed amount = recorded in-flight amount at creation of pool entries and outgoing bridge calls. R6 imports the obligations decided under C05 on refund amount, fee-increase amount and token, and on which batch a cancel returns to the pool (never the executed one). R7 composite conversions (functions chaining two value routines): per success path the holder effects of the chained routines — taken from their verified signatures — cancel on every intermediate representation and leave exactly the consumed or the returned coin, for one holder. " +
+		"R5 escrowed amount = recorded in-flight amount at creation of pool entries and outgoing bridge calls. R6 imports the obligations decided under C05 on refund amount, fee-increase amount and token, and on which batch a cancel returns to the pool (never the executed one). R7 composite conversions (functions chaining two value routines): per success path the holder effects of the chained routines — taken from their verified signatures — cancel on every intermediate representation and leave exactly the consumed or the returned coin, for one holder. R8 the error of every call to a value-moving routine is propagated — the failing branch ends in an error return or panic — unless the call ran on a cached context. " +
 		"Not decided: balances and supply at run time over histories, loops (routines with loops are only subject to R3), the bank and erc20 keepers' own behaviour, the migration of escrow held by earlier versions."
 	r.Rule("R1", "per success path: mint => paid out, burn => collected; one module account, one holder, one amount", 6, "routines with own bank-module operations")
 	r.Rule("R2", "releasing routine has an inverse routine for every token kind and direction", 4, "routines with own mint / module->account")
@@ -661,6 +661,7 @@ func runC04(e *Engine, r *Report, tier string) {
 	r.Rule("R4", "credited account == debited account for one flow of coins", 5, "functions that credit and then debit the same coins")
 	r.Rule("R5", "escrowed amount == recorded in-flight amount", 2, "creation of 0x18 / 0x48 records")
 	r.Rule("R7", "composite conversions: intermediate representations cancel; net effect is the consumed / returned coin; one holder", 2, "functions chaining two value routines")
+	r.Rule("R8", "the error of every value-moving call is propagated (or the call runs on a cached context)", 10, "calls to routines with a debit/credit summary")
 	r.Rule("R6", "refund amount, fee-increase amount and token, cancel target (C05.R2/R3/R5)", 5, "C05 obligations")
 	r.Assume("A1: the token pair stored for a base denom has owner MODULE or EXTERNAL (x/erc20 RegisterNativeCoin / RegisterNativeERC20 are the only writers)")
 	r.Assume("A2: FX has no alias denominations: the bridge denom of FX is FX (types/metadata.go GetFXMetaData carries no aliases; ManyToOne returns FX for FX)")
@@ -1238,6 +1239,66 @@ func (e *Engine) c04Holder(r *Report) {
 	}
 	if n == 0 {
 		r.Fail("R4", "credit-debit-sites", "", "UNRESOLVED-ANCHOR: no function debits coins that it had credited")
+	}
+
+	// ---- R8: a failed value movement fails the operation ----
+	// every call to a routine that debits or credits an account (summaries above) has its error propagated: the
+	// `err != nil` branch ends in an error return (or panic) without further effects. A tolerated failure is accepted only
+	// when the call ran on a cached context (its partial writes are dropped; C18 decides the write-back).
+	n8 := 0
+	for _, fn := range scope {
+		if !strings.Contains(fnPkgPath(fn), "x/crosschain/") {
+			continue
+		}
+		var fns []*ssa.Function
+		fns = append(fns, fn)
+		fns = append(fns, fn.AnonFuncs...)
+		for _, f := range fns {
+			allCalls(f, func(c ssa.CallInstruction) {
+				moving := false
+				for _, cal := range e.calleesOf(c) {
+					if len(debit[cal]) > 0 || len(credit[cal]) > 0 {
+						moving = true
+					}
+				}
+				if _, _, ok := e.externalDebit(c); ok {
+					moving = true
+				}
+				if ev, ok := bankEventOf(c); ok && ev.Kind != "" {
+					moving = true
+				}
+				if !moving {
+					return
+				}
+				n8++
+				ck := e.FnKey(f) + " -> " + callName(c) + " error"
+				if ok, _ := errorHandled(c); ok {
+					r.Ok("R8", ck, e.InstrPos(c), "error propagated")
+					return
+				}
+				// cached context?
+				for _, a := range c.Common().Args {
+					if isCtxType(a.Type()) {
+						cached := false
+						e.Slice(a, SliceOpts{MaxDepth: 6}, func(x ssa.Value) Verdict {
+							if cc0, ok := x.(*ssa.Call); ok && callName(cc0) == "CacheContext" {
+								cached = true
+								return Accept
+							}
+							return Continue
+						})
+						if cached {
+							r.Ok("R8", ck, e.InstrPos(c), "runs on a cached context: a tolerated failure leaves no partial movement (write-back decided by C18)")
+							return
+						}
+					}
+				}
+				r.Fail("R8", ck, e.InstrPos(c), "the error of a call that moves value is not propagated (discarded, or the failing branch continues / returns success) and the call does not run on a cached context: what it moved before failing is kept while the operation counts as done")
+			})
+		}
+	}
+	if n8 < 10 {
+		r.Fail("R8", "value-moving calls", "", fmt.Sprintf("UNRESOLVED-ANCHOR: only %d calls to value-moving routines found", n8))
 	}
 }
 
